@@ -326,7 +326,7 @@ theorem primsA_confined {j : InstallJob} (hj : JobOk S j) : ∀ p ∈ primsA j, 
 
 /-- start-up behaves the same and every version directory is byte for byte the same -/
 def SameAs (fs fs' : Fs) (cfg : List (Db C)) : Prop :=
-  startup S fs cfg = startup S fs' cfg ∧ ∀ q, InVersionDir q → get fs q = get fs' q
+  startup S fs cfg = startup S fs' cfg ∧ (∀ q, InVersionDir q → get fs q = get fs' q) ∧ NoUnprefixed fs
 
 theorem N_inVersionDir {j : InstallJob} (hd : isDot j.v = false) (t : Path) : InVersionDir (j.N ++ t) :=
   ⟨j.ref, j.v, t, hd, rfl⟩
@@ -365,7 +365,8 @@ theorem sameAs_of_extA (L : OrderLaws S.gt) {fs₀ fs : Fs} {cfg : List (Db C)} 
     rcases h _ (handlersFile_not_hid j) with h' | ⟨hpre, _, _⟩
     · exact h'
     · rw [handlersFile_not_pre_D] at hpre; cases hpre
-  exact ⟨startup_eq_of_extVis S L H.closed hvis hN hj.vparse H.nu (listOk_of_healthy S H) hH cfg, hver⟩
+  exact ⟨startup_eq_of_extVis S L H.closed hvis hN hj.vparse H.nu (listOk_of_healthy S H) hH cfg, hver,
+    noUnprefixed_of_extVis hvis H.nu⟩
 
 /-! ### moving the old version aside, moving the new one into place -/
 
@@ -590,7 +591,7 @@ theorem sameAs_of_frameN (L : OrderLaws S.gt) {fs₀ fsN fs fin : Fs} {cfg : Lis
     · simp [loadHandlers, h, hj.handlers data hd]
   have nu : ∀ {s : Fs}, FrameN j fsN s → NoUnprefixed s := fun hs => noUnprefixed_of_agree (agree hs) nuN
   have ok : ∀ {s : Fs}, FrameN j fsN s → ListOk S s := fun hs => listOk_of_agree S (agree hs) okN
-  refine ⟨⟨?_, ?_⟩, ?_⟩
+  refine ⟨⟨?_, ?_, nu hfs⟩, ?_⟩
   · exact startup_eq_of_agree S L ((agree hfs).symm.trans (agree hfin)) (nu hfs) (ok hfs)
       ((hload hfs).trans (hload hfin).symm) cfg
   · intro q hq
@@ -778,7 +779,7 @@ theorem addRepo_crash_safe (L : OrderLaws S.gt) {fs₀ : Fs} {cfg : List (Db C)}
         obtain ⟨h1, h2, h3⟩ := repo_paths_not_vis slug hq
         exact hframe q h1 h2 h3
       have agree : AgreeVis fs₀ fs := fun q hq => (same q (Or.inl hq)).symm
-      refine ⟨?_, fun q hq => same q (Or.inr (Or.inr hq))⟩
+      refine ⟨?_, fun q hq => same q (Or.inr (Or.inr hq)), noUnprefixed_of_agree agree H.nu⟩
       exact (startup_eq_of_agree S L agree H.nu (listOk_of_healthy S H)
         (loadHandlers_congr S (same _ (Or.inr (Or.inl rfl))).symm) cfg).symm
   simp only [crash, addRepoPrims_eq]
